@@ -15,8 +15,8 @@ from ._pairs import compare_all, V
 
 PID = "C09"
 LEVEL = "model_checking"
-WITNESSES = ["compositions", "cut_inside_season", "cut_at_season_jump", "overshoot_call", "dedup_edges", "final_tables_compared"]
-NONTRIVIAL = ["cut_at_season_jump", "overshoot_call", "dedup_edges"]
+WITNESSES = ["compositions", "cut_inside_season", "cut_at_season_jump", "overshoot_call", "dedup_edges", "final_tables_compared", "reused_instance"]
+NONTRIVIAL = ["cut_at_season_jump", "overshoot_call", "dedup_edges", "reused_instance"]
 
 CONFIGS = {
     "rainfed": A._b(crop="maize.1", win={"pre": 2, "seasons": 2}, word="mix"),
@@ -82,6 +82,11 @@ def scenarios(tier, seed=0):
         B = 32 if q else 64
         for i in range(0, len(comps), B):
             yield {"kind": "brute", "config": name + ("@short" if name != "thermal" else ""), "n": n, "parts": [list(c) for c in comps[i:i + B]]}
+    # the same model object after it has already completed a run: first call re-initialises, later calls continue
+    for name in names:
+        comps = list(compositions(n))
+        pick = comps[:: (8 if q else 2)]
+        yield {"kind": "brute", "config": name + ("@short" if name != "thermal" else ""), "n": n, "parts": [list(c) for c in pick], "reuse": True}
     N = 30 if q else 64
     for name in names:
         for j0 in range(0, N + 1, 4):
@@ -165,10 +170,18 @@ def run(scn):
                 for parts in scn["parts"]:
                     parts = trim(parts, n)
                     m = S.make_model(ref.spec)
-                    m._initialize()
+                    if scn.get("reuse"):
+                        # history: this object has completed a whole run before (alternating the way it was completed)
+                        if len(parts) % 2:
+                            m.run_model(till_termination=True)
+                        else:
+                            m.run_model(num_steps=ref.total + 3)
+                        wit["reused_instance"] = wit.get("reused_instance", 0) + 1
+                    else:
+                        m._initialize()
                     done = 0
-                    for k in parts:
-                        m.run_model(num_steps=k, initialize_model=False)
+                    for ci, k in enumerate(parts):
+                        m.run_model(num_steps=k, initialize_model=bool(scn.get("reuse")) and ci == 0)
                         done += k
                         res["transitions"] += k
                         res["evals"] += 1
@@ -256,12 +269,13 @@ def describe(tier):
         "rule": f"(i) ALL 2^(n-1) compositions of the first n={n} transitions into run_model(num_steps=k, initialize_model=False) calls followed by an overshooting "
                 f"call, on windows whose first days contain pre-season days, a season start, a harvest with a jump and the termination; (ii) deduplicated "
                 f"search: from the state after j steps (j=0..N={N}) every call size k in 1..N-j and an overshooting size is applied to a deep copy and must land on "
-                "the canonical state (clock + every condition field + crop copies + CO2 + all output rows) that ONE call of j+k steps reaches; x configurations "
+                "the canonical state (clock + every condition field + crop copies + CO2 + all output rows) that ONE call of j+k steps reaches; plus a subset of the compositions on a model object that has ALREADY completed a run (first call re-initialises); x configurations "
                 "{rainfed, threshold, net, schedule, bunds, groundwater, off-season, 3 seasons, thermal crop}. After every non-final call results/finished flag "
                 "must be False, after the final one all four tables are bitwise those of run_model(till_termination=True).",
         "bound": f"compositions complete for n={n}; call-size edges complete for N={N}",
         "exhaustive": True,
         "witnesses": WITNESSES,
         "assumptions": ["the canonical form contains everything a step reads (cross-checked by the brute-force part in every run)",
-                        "process_outputs is left at its default (False), as in the statement's quantifier"],
+                        "process_outputs is left at its default (False), as in the statement's quantifier",
+                        "a re-used instance is stepped with initialize_model=True on its first call only (the run is re-initialised once, not in between)"],
     }
